@@ -63,6 +63,14 @@ def run(p: Program, rep: Report, tier: str) -> None:
                     init_ = p.find_method(hci, "__init__") if hci is not None else None
                     zero = init_ is not None and any(isinstance(n_, (ast.Assign, ast.AnnAssign)) and getattr(n_, "value", None) is not None and isinstance(n_.value, ast.Constant) and n_.value.value == 0 and type(n_.value.value) is int
                                                    and ast.unparse(n_.targets[0] if isinstance(n_, ast.Assign) else n_.target) == f"{init_.params[0]}.{attr}" for n_ in ast.walk(init_.node))
+                    if init_ is None and hci is not None:
+                        # a (data)class without a written __init__: the field's default is its initial value, unless the
+                        # constructor call gives the field
+                        dflt = hci.attrs.get(attr)
+                        ctor_ = next((c_ for n_, _ci, c_ in _holders(p, fn, lp_) if n_ == hname), None)
+                        fields_ = list(hci.ann.keys())
+                        given_ = set(fields_[:len(ctor_.args)]) | {k_.arg for k_ in ctor_.keywords} if ctor_ is not None else set()
+                        zero = isinstance(dflt, ast.Constant) and type(dflt.value) is int and dflt.value == 0 and attr not in given_
                     if zero:
                         rep.ok("R15.1", f"{name}: {cnt} (kept as {hname}.{attr}) starts at 0")
                     else:
